@@ -46,6 +46,10 @@ class C12Combine(Scenario):
             if present:
                 k = rng.choice(present)
                 return {"op": "remove", "to": side, "k": k, "n": rng.between(1, self.out[side][k])}
+        if r < 90 and cfg["kind"] != "cms":
+            # the element counter of a Bloom-family filter is caller-settable and, for results of set operations, only
+            # an estimate (possibly 0 with cells set): the arrays must be combined regardless of it
+            return {"op": "setcount", "to": side, "v": rng.choice((0, 0, 1, 5))}
         return {"op": "combine", "order": rng.choice(("ab", "ba"))}
 
     def make(self, disk=False):
@@ -126,6 +130,15 @@ class C12Combine(Scenario):
                 structs.api_remove(tgt, key, step["n"], step.get("alt"))
                 self.c.remove(key, step["n"])
                 out[step["k"]] = out.get(step["k"], 0) - step["n"]
+            return {"r": "ok"}
+        if op == "setcount":
+            if kind == "cms":
+                return "skip"
+            tgt = self.a if step["to"] == "a" else self.b
+            if getattr(tgt, "is_on_disk", False):
+                return "skip"
+            tgt.elements_added = step["v"]
+            ctx.fault("counter_set")
             return {"r": "ok"}
         if op == "combine":
             return self.combine(step["order"])
